@@ -30,13 +30,21 @@ pub fn gen_ell(rng: &mut Rng) -> Case {
       4 | 5 => { let d = 1 + rng.below(29) as usize; let u = *rng.pick(&[1e-12, 1e-6, 1e-3, 1e-2, 3e-2, 5e-2]); thr[d] * if rng.below(4) == 0 { 1.0 + u } else { 1.0 - u } }
       _ => rng.range(0.3, PI / 2.0),
     }.max(1e-10).min(PI / 2.0 * 0.999);
+    let a0 = a; let _ = a0;
     if a / cell > 40.0 { let mut d = 0u8; while d < 29 && a * nside(d + 1) as f64 <= 40.0 { d += 1; } if a * nside(d) as f64 > 40.0 { continue; } depth = d.saturating_sub(dd); }
     let circ = rng.below(3) == 0;
-    let b = if circ { a } else { a * rng.range(0.05, 1.0) };
+    // semi-minor axis: the statement says b in (0, a]: mostly 0.05..1 of a, one ellipse in 6 much thinner (ratio down to 1e-12)
+    let mut a = a;
+    let mut b = if circ { a } else if rng.below(6) == 0 { a * rng.log_uniform(1e-12, 0.05) } else { a * rng.range(0.05, 1.0) };
     let pa = rng.f() * PI;
     let (mut lon, mut lat) = cone_center(rng);
     if rng.below(10) == 0 { let d = rng.below(30) as u8; let c = nested::get_or_create(d).center(rng.below(n_hash(d))); lon = c.0; lat = c.1; }
-    return Case::new("ell").u("depth", depth as u64).u("dd", dd as u64).f("lon", any_turn(rng, lon)).f("lat", lat).f("a", a).f("b", b).f("pa", pa).u("s", rng.next() >> 1);
+    // sizes far below the deepest cell (down to 1e-20 rad), centred on / a few ulps off the centre of a cell of the query depth
+    if rng.below(12) == 0 { depth = 20 + rng.below(10) as u8; let c = nested::get_or_create(depth).center(rng.below(n_hash(depth)));
+      lon = crate::util::nudge(c.0, rng.below(5) as i64 - 2); lat = crate::util::nudge(c.1, rng.below(5) as i64 - 2).max(-PI / 2.0).min(PI / 2.0);
+      a = rng.log_uniform(1e-20, 1e-9); b = if rng.coin() { a } else { a * rng.log_uniform(1e-9, 1.0) };
+      return Case::new("ell").u("depth", depth as u64).u("dd", 0).f("lon", lon).f("lat", lat).f("a", a).f("b", b).f("pa", pa).u("s", rng.next() >> 1).s("cls", &format!("tiny:b/a~1e{}", (b / a).log10().floor() as i32)); }
+    return Case::new("ell").u("depth", depth as u64).u("dd", dd as u64).f("lon", any_turn(rng, lon)).f("lat", lat).f("a", a).f("b", b).f("pa", pa).u("s", rng.next() >> 1).s("cls", &format!("b/a~1e{}", (b / a).log10().floor() as i32));
   }
 }
 
